@@ -13,6 +13,11 @@
 EXTENDS Naturals, Integers, Sequences, TLC
 
 NoneV == <<"?">>
+\* "read as no value from the stored results of a workbook": an empty text
+\* result is stored as <v></v> and comes back as None.  The cell has to be
+\* calculated like a NoneV cell, but nothing says that its dependants were reset.
+UnkV == <<"?!">>
+NoVal(v) == v = NoneV \/ v = UnkV
 Blank == <<"Z">>
 VN(i)  == <<"N", i>>
 VB(b)  == <<"B", b>>
